@@ -519,6 +519,8 @@ func interleave(c *core.Ctx, fine bool) {
 				<-st
 				schedByGid[tasks[i].gid] = tasks[i]
 			}
+			stallTimer := time.NewTimer(time.Hour)
+			defer stallTimer.Stop()
 			var schedule []byte
 			var running []*stask // resumed, neither parked nor finished within core.StallAfter
 			collect := func(wait time.Duration) bool {
@@ -572,10 +574,17 @@ func interleave(c *core.Ctx, fine bool) {
 					schedule = append(schedule, byte('0'+tk.id))
 				}
 				curTask = tk
+				if !stallTimer.Stop() {
+					select {
+					case <-stallTimer.C:
+					default:
+					}
+				}
+				stallTimer.Reset(core.StallLimit())
 				tk.resume <- struct{}{}
 				select {
 				case <-tk.yielded:
-				case <-time.After(core.StallLimit()):
+				case <-stallTimer.C:
 					core.NoteStall()
 					// blocked on something a parked task holds, or waiting for goroutines of its own:
 					// let another task run beside it (the run is no longer a function of the seed alone)
